@@ -27,6 +27,8 @@ void* vm_new(uint64_t n){
   void* p = malloc(n ? n : 1);
 #ifdef __CPROVER__
   __CPROVER_assume(p != 0);
+#else
+  if (!p) { vr_throw(VR_EXC_BAD_ALLOC); return 0; }      /* a request the heap cannot serve: operator new throws */
 #endif
   vm_record(p, n);
   return p;
